@@ -2,7 +2,7 @@
    byte and spec_float stay extracted inductives. *)
 From Coq Require Import ExtrOcamlBasic.
 From Coq Require Import List ZArith Strings.Byte Floats.SpecFloat.
-From Ugo Require Import Base.Res Base.GoInt Base.GoFloat Value.PValue Value.Ops Conv.GoValue Skel.Skel Byte.Instr Byte.V1Conv Codec.Varint Codec.Obj.
+From Ugo Require Import Base.Res Base.GoInt Base.GoFloat Value.PValue Value.Ops Conv.GoValue Skel.Skel Byte.Instr Byte.V1Conv Codec.Varint Codec.Obj Comp.SymTab.
 Definition byte_to_N := Byte.to_N.
 Definition byte_of_N := Byte.of_N.
 Extraction "ugomodel.ml"
@@ -12,4 +12,5 @@ Extraction "ugomodel.ml"
   binop vm_equal vm_not_equal unop
   run_program sem_program
   conv_comp_func reloc_ok
-  encode decode.
+  encode decode
+  run_ops new_symbol_table.
